@@ -49,7 +49,7 @@ Definition policy_verdict (r : ring) : verdict :=
 
 Inductive rop :=
 | RPush (i : nat) (item : N)     (* ringBuffer.Push(item) and pool.Get returned stripe i *)
-| RRecv                          (* processItems: items := <-itemsCh; Lock; admit.Push(items); Unlock *)
+| RRecv                          (* processItems: items := <-itemsCh; Lock; tinyLFU.Push(items); Unlock *)
 | RGc (i : nat)                  (* the GC drops the unheld stripe i from the pool *)
 | RClose.                        (* defaultPolicy.Close: isClosed := true (itemsCh closed, goroutine stopped) *)
 
